@@ -85,6 +85,9 @@ def code_for_number_token(name, value, location):
     assert value is not None
 
     try:
+        if "_" in value:
+            # Python source code can use underscores to group digits, numbers in a CID can not.
+            raise ValueError("underscore in number")
         # Note: base 0 automatically handles prefixes like 0x.
         result = int(value, 0)
     except ValueError:
